@@ -34,6 +34,7 @@ BUDGET_S = {"quick": 20, "thorough": 500}
 FLOORS = {
     "quick": {"evaluations": 1500, "distinct": 300,
               "counters": {"lookup_events": 10000, "load_events": 800, "distinct_keys_checked": 2000,
+                           "respelled_reference_cases": 40,
                            "module_constructions": 3500, "module_constructions_ok": 2800,
                            "module_builds_by_api": 2800, "module_builds_during_render": 250,
                            "import_target_modules_observed": 220, "module_lookup_events": 10000,
@@ -43,6 +44,7 @@ FLOORS = {
                            "module_constructions:make_module_async(vars)": 240}},
     "thorough": {"evaluations": 40000, "distinct": 5000,
                  "counters": {"lookup_events": 300000, "load_events": 20000, "distinct_keys_checked": 60000,
+                              "respelled_reference_cases": 1000,
                               "module_constructions": 50000, "module_constructions_ok": 40000,
                               "module_builds_by_api": 40000, "module_builds_during_render": 4000,
                               "import_target_modules_observed": 3300, "module_lookup_events": 200000,
@@ -85,7 +87,7 @@ def attribute(ctxobj, frame):
     return ctxobj.name, "engine-for-context"
 
 
-def make_recording_env(case, is_async, log_lookups, log_loads, stats=None):
+def make_recording_env(case, is_async, log_lookups, log_loads, stats=None, srcs_override=None):
     from jinja2.runtime import Context
 
     stats = stats if stats is not None else {}
@@ -116,16 +118,53 @@ def make_recording_env(case, is_async, log_lookups, log_loads, stats=None):
     RecContext = type("RecContext", (Context,), ns)
 
     env = corpus.make_env(case, enable_async=is_async)
+    if srcs_override is not None:
+        import jinja2
+
+        env.loader = jinja2.DictLoader(srcs_override)
     env.context_class = RecContext
+    parents = []
     for fn in ("get_template", "select_template", "get_or_select_template"):
         orig = getattr(env, fn)
 
         def wrapper(name, parent=None, globals=None, _orig=orig, _fn=fn):
             if parent is not None:
                 log_loads.append((parent, _fn, name))
-            return _orig(name, parent, globals)
+            parents.append(parent)
+            try:
+                return _orig(name, parent, globals)
+            finally:
+                parents.pop()
         setattr(env, fn, wrapper)
+    # ... and what the LOADER is finally asked for on behalf of a template (after join_path)
+    orig_load = env.loader.load
+
+    def load(environment, name, globals=None):
+        if parents and parents[-1] is not None:
+            log_loads.append((parents[-1], "loader.load", name))
+        return orig_load(environment, name, globals)
+    env.loader.load = load
     return env
+
+
+def respell(case, rng):
+    """The same set with its constant template references written in non-canonical but
+    equivalent spellings ('./x', '/x', 'x'); the loader knows every spelling."""
+    import re
+
+    srcs = corpus.sources(case)
+    names = sorted(srcs, key=len, reverse=True)
+    how = {n: rng.choice(["./", "/", "./", ""]) for n in names}
+    out = {}
+    for n, s in srcs.items():
+        for m in names:
+            if how[m]:
+                s = re.sub(r"(['\"])" + re.escape(m) + r"\1", lambda mo: mo.group(1) + how[m] + m + mo.group(1), s)
+        out[n] = s
+    for n in list(out):
+        for pre in ("./", "/"):
+            out[pre + n] = out[n]
+    return out
 
 
 def judge_lookups(ctx, case, is_async, env, srcs, static_vars, lookups, phase, seen):
@@ -150,12 +189,14 @@ def judge_lookups(ctx, case, is_async, env, srcs, static_vars, lookups, phase, s
                       {"case": case, "async": is_async})
 
 
-def check_case(ctx, case, is_async):
+def check_case(ctx, case, is_async, respelled=None):
     from jinja2 import meta
 
     lookups, loads, stats = [], [], {}
-    env = make_recording_env(case, is_async, lookups, loads, stats)
-    srcs = corpus.sources(case)
+    env = make_recording_env(case, is_async, lookups, loads, stats, respelled)
+    srcs = corpus.sources(case) if respelled is None else {n: s for n, s in respelled.items() if n in case["asts"]}
+    if respelled is not None:
+        ctx.count("respelled_reference_cases")
     static_vars, static_refs = {}, {}
     for n, s in srcs.items():
         try:
@@ -243,6 +284,8 @@ def run(ctx):
     while ctx.more(i, n, floor=60):
         case = corpus.gen_case(rng)
         check_case(ctx, case, is_async=(i % 4 == 3))
+        if case["kind"] in ("incimp", "inherit") and i % 2 == 0:
+            check_case(ctx, case, is_async=(i % 4 == 2), respelled=respell(case, rng))
         if i < 2:
             ctx.sample({"sources": corpus.sources(case)})
         i += 1
